@@ -36,8 +36,6 @@ Definition run_corr (args : list tok) : list byte :=
    a node receives the bundle, changes it (new payload through set_payload, lifetime 12345 ms through the public field) and sends it
    on: what to_cbor emits is an uncorrupted bundle, so it passes the check in memory (MEM) and after decoding (WIRE) - whatever CRC
    values the received blocks carried *)
-Definition set_p_lifetime (p : primary) (l : N) : primary :=
-  mkprimary (p_version p) (p_flags p) (p_crc p) (p_dst p) (p_src p) (p_rpt p) (p_time p) (p_seq p) l (p_frag_off p) (p_total_len p).
 Definition run_reenc (args : list tok) : list byte :=
   match args with
   | [t; pl] =>
@@ -45,9 +43,7 @@ Definition run_reenc (args : list tok) : list byte :=
     | Some bs, Some d =>
       match from_cbor bs with
       | Ok b =>
-        let b1 := set_payload b d in
-        let b2 := mkbundle (set_p_lifetime (b_primary b1) 12345) (b_canonicals b1) in
-        let '(bytes2, b3) := to_cbor b2 in
+        let '(bytes2, b3) := to_cbor (reenc b d 12345) in
         join [S_ "OK"; S_ "MEM"; show_bool (crc_valid b3); S_ "WIRE";
               match from_cbor bytes2 with Ok b4 => show_bool (crc_valid b4) | Err _ => S_ "ERR" | Panic _ => S_ "PANIC" end]
       | Err _ => S_ "ERR"
